@@ -31,10 +31,10 @@ SWAPPED = {"fpr": "fnr", "tpr": "tnr", "topr": "tonr", "fnr": "fpr", "tnr": "tpr
 
 def bounds(tier):
     if tier == "quick":
-        return {"max_pos": 3, "max_neg": 3, "easy": [[0, 0], [1, 2], [3, 0]], "grids": ["irregular", "dyadic", "int", "ulp"],
+        return {"max_pos": 3, "max_neg": 3, "easy": [[0, 0], [1, 2], [3, 0]], "grids": ["irregular", "dyadic", "int", "ulp", "mixed"],
                 "affine": AFFINE}
     return {"max_pos": 4, "max_neg": 4, "easy": [[0, 0], [1, 2], [3, 0], [0, 1], [2, 2]],
-            "grids": ["irregular", "dyadic", "int", "ulp"], "affine": AFFINE}
+            "grids": ["irregular", "dyadic", "int", "ulp", "mixed"], "affine": AFFINE}
 
 
 def work(tier, seed):
@@ -58,7 +58,11 @@ def run(item, ctx, tier, seed):
 
     b = bounds(tier)
     blocks = [tuple(x) for x in item["blocks"]]
-    pos, neg, vals = ot.concretise(blocks, item["grid"], seed)
+    if item["grid"] == "mixed":  # integer positives, float negatives: the classes are stored in different dtypes
+        pos, neg, vals, _, _ = ot.concretise_mixed(blocks, "mixed")
+        neg = [float(x) for x in neg]
+    else:
+        pos, neg, vals = ot.concretise(blocks, item["grid"], seed)
     T = ot.threshold_alphabet(vals)
     Tarr = np.array(T)
     both = bool(pos) and bool(neg)
@@ -124,7 +128,7 @@ def run(item, ctx, tier, seed):
             if item["grid"] == "ulp":
                 # scores one ulp apart (1.5, 1.5+ulp, ...): the exact shift by -1.5 pulls them many ulps apart
                 maps = [(1.0, -1.5), (2.0, -3.0)]
-            elif item["grid"] != "int":
+            elif item["grid"] not in ("int", "mixed"):
                 maps = [tuple(m) for m in b["affine"]]
             else:
                 maps = [(2, 1), (3, -100)]  # integer maps keep the integer dtype of the scores
